@@ -168,7 +168,8 @@ def child_params(c, mode, pre, shift=0, atom=False):
         out.append((cn, l, cf))
         mapping[n] = cn
     if "track" in mode and not atom and len(out) < 2:
-        l = c.alphabet[-1]
+        used = {x[1] for x in out}
+        l = next((a for a in reversed(c.alphabet) if a not in used), c.alphabet[-1])  # preferably independent of the others
         if (l, 0) not in {(x[1], x[2]) for x in out} and "t_0" not in {x[0] for x in out}:
             out.append(("t_0", l, 0))
     return tuple(out), mapping
